@@ -72,7 +72,7 @@ func runC13G1(c *Ctx) {
 		}
 		c.check("C13.G1", "proxy.(*HTTPProxy).ServeHTTP|redirect only for redirect targets", r.Pos(), guarded, "http.Redirect must be under RedirectCode != 0")
 		// behind the gates
-		gated := denied != nil && auth != nil && factCallTo(r.Block(), denied, false) != nil && factCallTo(r.Block(), auth, true) != nil
+		gated := denied != nil && auth != nil && gateReceiver(r.Block(), denied, false, 0) != nil && gateReceiver(r.Block(), auth, true, 0) != nil
 		c.check("C13.G1", "proxy.(*HTTPProxy).ServeHTTP|redirect behind access and auth gates", r.Pos(), gated, "the redirect answer must come after both gates")
 		// no upstream contact after the redirect
 		bad := ""
